@@ -758,10 +758,24 @@ def run_cell(cell, seed, tmpdir, case=None):
                 def set_positions(self, ps):
                     self.antenna_positions.extend(ps)
             ps = [tuple(a.position) for a in ants]
-            cont = Str(ps[:1]) + Str(ps[1:])
-            cont.build_antennas(Antenna, noisy=False)
-            ants = list(cont)
-            desc["antennas"] = "CombinedDetector"
+            if rng.random() < 0.5 or len(ps) < 3:
+                cont = Str(ps[:1]) + Str(ps[1:])
+                cont.build_antennas(Antenna, noisy=False)
+                ants = list(cont)
+                desc["antennas"] = "CombinedDetector"
+            else:
+                # a detector combined with a plain LIST of antennas (a list subset): the kernel sizes its
+                # per-antenna slots with len() and walks them by iteration
+                first = Str(ps[:1])
+                first.build_antennas(Antenna, noisy=False)
+                loose = [Antenna(position=q, noisy=False) for q in ps[1:]]
+                cont = first + loose
+                ants = list(first) + loose         # the antennas in construction order, not through len/iter
+                desc["antennas"] = "CombinedDetector with a list subset"
+                if len(cont) != len(ants) or [x for x in cont] != ants:
+                    return stats, ("real components %s: the antenna set (detector + list of %d antennas) has len %d and "
+                                   "iterates %d objects, %d antennas were put in" % (
+                                       desc, len(loose), len(cont), len(list(cont)), len(ants)), desc)
         rec = []
 
         class W:
